@@ -150,7 +150,7 @@ def main(run: Run):
     run.assumptions += BASE_ASSUMPTIONS_L2
     for fn in ("R", "W", "RW", "RW1C", "RW1S", "_Reserved"):
         run.functions[f"amaranth_soc.csr.action.{fn}.elaborate"] = "per-configuration (bounded in shape/init), all values/states/time"
-    run_configs(run, __name__, cfgs)
+    run_configs(run, __name__, cfgs, must_accept=True)
     return run.finish(
         explanation="Contract clauses on each field action's elaborate(), discharged as QF_BV obligations over the "
                     "Amaranth NIR netlist of the real elaborated action from an arbitrary storage value "
